@@ -101,7 +101,7 @@ def _prune_cache(keep):
     if not d.exists():
         return
     ents = sorted([p for p in d.iterdir() if p.is_dir()], key=lambda p: p.stat().st_mtime)
-    for p in ents[:-2]:
+    for p in ents[:-10]:
         if p.name != keep:
             shutil.rmtree(p, ignore_errors=True)
 
@@ -270,6 +270,16 @@ def print_assumptions(module, names):
 def build_model(name, extract_v, ml_sources, main):
     """Extract (coqc on extract_v, which must `Extraction "model_<name>.ml" ...`) and link the OCaml
     runner from driver/zutil.ml + ml_sources + main.  Returns the executable path."""
+    # make sure the compiled theories the extraction file imports are up to date with their sources
+    deps = []
+    if Path(extract_v).is_relative_to(COQ):
+        for m in re.finditer(r"From L60870 Require Import ([^.]*(?:\.[A-Za-z_][^. ]*)*)\.\s", Path(extract_v).read_text() + " "):
+            for mod in m.group(1).split():
+                deps.append(mod.replace(".", "/") + ".vo")
+        if deps:
+            ok, out = coq_make(deps)
+            if not ok:
+                raise RuntimeError("theories needed by the extraction do not build:\n" + out[-2000:])
     vos = sorted(COQ.rglob("*.vo"))
     key = hashlib.sha256()
     key.update(Path(extract_v).read_bytes())
